@@ -1924,13 +1924,386 @@ func (c *Ctx) unobservedNewField(typ string, f *types.Var) bool {
 			}
 			continue
 		}
-		o := outer(a.fn)
-		if o == nil || o.Object() == nil {
-			return false
-		}
-		if fo, ok := o.Object().(*types.Func); ok && baselineFuncs[fo.FullName()] {
+		if c.runByExistingCode()[outer(a.fn)] {
 			return false
 		}
 	}
 	return true
+}
+
+// onlyFeedsItselfOrLogs: every use of the value ends in a store back into the same location (x = x + 1) or in an
+// argument of a log/slog call: the value does not steer anything.
+func onlyFeedsItselfOrLogs(v ssa.Value, addr ssa.Value, depth int) bool {
+	if depth > 6 || v.Referrers() == nil {
+		return depth <= 6
+	}
+	for _, r := range *v.Referrers() {
+		switch x := r.(type) {
+		case *ssa.DebugRef:
+		case *ssa.Store:
+			if x.Val == v {
+				if x.Addr == addr {
+					continue
+				}
+				// same field of the same base through a second FieldAddr instruction
+				if f1, b1, ok1 := fieldOfAddr(x.Addr); ok1 {
+					if f2, b2, ok2 := fieldOfAddr(addr); ok2 && f1 == f2 && b1 == b2 {
+						continue
+					}
+				}
+				// an element of a variadic argument list handed to log/slog
+				if ia, ok := x.Addr.(*ssa.IndexAddr); ok {
+					if a, ok := ia.X.(*ssa.Alloc); ok && a.Comment == "varargs" && varargsOnlyToSlog(a) {
+						continue
+					}
+				}
+				return false
+			}
+		case *ssa.BinOp:
+			if x.Op == token.ADD || x.Op == token.SUB {
+				if !onlyFeedsItselfOrLogs(x, addr, depth+1) {
+					return false
+				}
+				continue
+			}
+			return false
+		case *ssa.Convert, *ssa.ChangeType, *ssa.MakeInterface:
+			if !onlyFeedsItselfOrLogs(r.(ssa.Value), addr, depth+1) {
+				return false
+			}
+		case ssa.CallInstruction:
+			if !strings.HasPrefix(calleeName(x.Common()), "log/slog.") {
+				return false
+			}
+			if cv, ok := r.(ssa.Value); ok && !onlyFeedsItselfOrLogs(cv, addr, depth+1) {
+				return false
+			}
+		default:
+			return false
+		}
+	}
+	return true
+}
+
+func varargsOnlyToSlog(a *ssa.Alloc) bool {
+	for _, r := range *a.Referrers() {
+		sl, ok := r.(*ssa.Slice)
+		if !ok {
+			continue
+		}
+		for _, rr := range *sl.Referrers() {
+			ci, ok := rr.(ssa.CallInstruction)
+			if !ok || !strings.HasPrefix(calleeName(ci.Common()), "log/slog.") {
+				return false
+			}
+		}
+	}
+	return true
+}
+
+// ownerListed: the function belongs to one of the types the property lists (its receiver, else the type it constructs,
+// else the type of its first parameter); package-level state is charged to the properties of the code that reads it.
+func ownerListed(owners []string, fn *ssa.Function) bool {
+	name := ""
+	if rn := recvNamed(fn); rn != nil {
+		name = rn.Obj().Name()
+	} else {
+		sig := fn.Signature
+		pick := func(t types.Type) string {
+			if p, ok := t.(*types.Pointer); ok {
+				t = p.Elem()
+			}
+			if n, ok := t.(*types.Named); ok {
+				return n.Obj().Name()
+			}
+			return ""
+		}
+		if sig.Results().Len() > 0 {
+			name = pick(sig.Results().At(0).Type())
+		}
+		if name == "" || name == "error" {
+			if sig.Params().Len() > 0 {
+				name = pick(sig.Params().At(0).Type())
+			}
+		}
+	}
+	for _, o := range owners {
+		if o == name {
+			return true
+		}
+	}
+	return false
+}
+
+var existingCodeCache map[*ssa.Function]bool
+
+// runByExistingCode: the functions of the reference tree plus everything they can call statically (a new helper that
+// could not be expanded is still run on behalf of the old code that calls it). What is left are functions only new
+// code reaches: new accessors, new RPC methods, new commands.
+func (c *Ctx) runByExistingCode() map[*ssa.Function]bool {
+	if existingCodeCache != nil {
+		return existingCodeCache
+	}
+	set := map[*ssa.Function]bool{}
+	var work []*ssa.Function
+	for _, fn := range c.modFuncs {
+		o := outer(fn)
+		if o != fn {
+			continue
+		}
+		base := false
+		if o.Object() == nil {
+			base = o.Name() == "init"
+		} else if fo, ok := o.Object().(*types.Func); ok && baselineFuncs[fo.FullName()] {
+			base = true
+		}
+		if base {
+			set[o] = true
+			work = append(work, o)
+		}
+	}
+	for len(work) > 0 {
+		fn := work[len(work)-1]
+		work = work[:len(work)-1]
+		for _, f := range withAnon(fn) {
+			for _, cs := range callsIn(f) {
+				callee := cs.common().StaticCallee()
+				if callee == nil {
+					continue
+				}
+				if callee.Origin() != nil {
+					callee = callee.Origin()
+				}
+				co := outer(callee)
+				if co != nil && c.inModule(co) && !set[co] {
+					set[co] = true
+					work = append(work, co)
+				}
+			}
+			// method values / function values taken of module functions
+			for _, b := range f.Blocks {
+				for _, in := range b.Instrs {
+					for _, op := range in.Operands(nil) {
+						if g, ok := (*op).(*ssa.Function); ok && c.inModule(g) {
+							if go_ := outer(g); go_ != nil && !set[go_] {
+								set[go_] = true
+								work = append(work, go_)
+							}
+						}
+					}
+				}
+			}
+		}
+	}
+	existingCodeCache = set
+	return set
+}
+
+// ---------- new state observed by existing code ----------
+
+// newStateOwners: which struct types (and whether package-level variables) carry state a property depends on.
+var newStateOwners = map[string][]string{
+	"C01": {"Target", "HealthCheck", "LoadBalancer"},
+	"C02": {"Router", "ServiceMap", "Service", "LoadBalancer", "Target", "inflightRequest"},
+	"C03": {"Target", "inflightRequest", "LoadBalancer", "Service", "PauseController"},
+	"C04": {"ServiceMap", "Router", "pathBinding", "routingContext"},
+	"C05": {"ServiceMap", "Router", "pathBinding"},
+	"C06": {"Router", "ServiceMap", "Service", "LoadBalancer", "Target", "HealthCheck", "StaticCertManager", "*globals"},
+	"C07": {"PauseController", "Service"},
+	"C08": {"PauseController", "Service", "ErrorPageMiddleware", "errorResponse"},
+	"C09": {"LoadBalancer", "Target", "HealthCheck", "*globals"},
+	"C10": {"RolloutController", "Service"},
+	"C11": {"Service", "ServiceOptions", "TargetOptions", "HealthCheckConfig", "PauseController", "RolloutController", "Router", "Target", "*globals"},
+	"C12": {"Router", "*globals"},
+	"C13": {"Router", "Target", "BufferPool", "Buffer", "RequestIDMiddleware", "RequestStartMiddleware", "RequestBufferMiddleware", "ResponseBufferMiddleware", "routingContext", "*globals"},
+	"C14": {"Buffer", "bufferedResponseWriter", "RequestBufferMiddleware", "ResponseBufferMiddleware", "*globals"},
+	"C15": {"Target", "ErrorPageMiddleware", "errorResponse", "inflightRequest", "*globals"},
+	"C16": {"Router", "Service", "ServiceMap", "StaticCertManager", "*globals"},
+	"C17": {"Target", "HealthCheck", "LoadBalancer", "PauseController", "Service"},
+	"C19": {"LoggingMiddleware", "loggerResponseWriter", "loggingRequestContext", "bufferedResponseWriter"},
+}
+
+// newStateRule: state that does not exist in the reference tree (a struct field of one of the property's types, or a
+// package-level variable) and that existing code READS makes the behaviour of that code depend on something none of the
+// rules knows about - typically a cache, a memo or a shared pool, whose coherence (per service? per prefix? across a
+// failed command? across a restart?) is exactly what the properties quantify over. New state that only new functions
+// read (a counter with its accessor) is left alone.
+func (c *Ctx) newStateRule(rule string) {
+	owners := newStateOwners[c.prop]
+	isBaselineFn := func(fn *ssa.Function) bool { return c.runByExistingCode()[outer(fn)] }
+	// a use of the address of the state: does it observe the state's value?
+	observes := func(addr ssa.Value) (ssa.Instruction, bool) {
+		if addr.Referrers() == nil {
+			return nil, false
+		}
+		for _, r := range *addr.Referrers() {
+			switch x := r.(type) {
+			case *ssa.UnOp:
+				if x.Op == token.MUL && !onlyFeedsItselfOrLogs(x, addr, 0) {
+					return x, true
+				}
+			case *ssa.Store:
+				if x.Addr != addr {
+					return x, true // the address itself is stored somewhere
+				}
+			case *ssa.FieldAddr, *ssa.IndexAddr:
+				// a component of it: treat reads of components as reads
+				if v, ok := r.(ssa.Value); ok && v.Referrers() != nil {
+					for _, rr := range *v.Referrers() {
+						if u, ok := rr.(*ssa.UnOp); ok && u.Op == token.MUL {
+							return u, true
+						}
+					}
+				}
+			case ssa.CallInstruction:
+				cc := x.Common()
+				name := ""
+				if f := cc.StaticCallee(); f != nil {
+					name = f.Name()
+				} else if cc.IsInvoke() {
+					name = cc.Method.Name()
+				}
+				switch name {
+				case "Store", "Delete", "Put", "Clear", "Lock", "Unlock", "RLock", "RUnlock", "Do", "Wait", "Done":
+					// writes / synchronisation only
+				case "Add", "Swap", "CompareAndSwap", "Or", "And":
+					if v, ok := r.(ssa.Value); ok && v.Referrers() != nil && len(*v.Referrers()) > 0 && !onlyFeedsItselfOrLogs(v, addr, 0) {
+						return r, true
+					}
+				default:
+					return r, true // Load, LoadOrStore, Get, Range, or handed to some function
+				}
+			case *ssa.MakeClosure, *ssa.Phi, *ssa.MakeInterface, *ssa.Return:
+				return r, true
+			}
+		}
+		return nil, false
+	}
+	n := 0
+	for _, tn := range owners {
+		if tn == "*globals" {
+			for _, pkg := range []*ssa.Package{c.server, c.cmd} {
+				for name, m := range pkg.Members {
+					g, ok := m.(*ssa.Global)
+					if !ok || strings.HasPrefix(name, "init$") || baselineFields[pkg.Pkg.Path()+".var."+name] {
+						continue
+					}
+					// (go/ssa keeps no referrer lists for globals: scan the instructions)
+					mutated := false
+					var reader ssa.Instruction
+					for _, fn := range c.modFuncs {
+						for _, b := range fn.Blocks {
+							for _, in := range b.Instrs {
+								uses := false
+								for _, op := range in.Operands(nil) {
+									if *op == ssa.Value(g) {
+										uses = true
+									}
+								}
+								if !uses {
+									continue
+								}
+								obs := false
+								switch x := in.(type) {
+								case *ssa.Store:
+									if x.Addr == ssa.Value(g) {
+										if outer(fn).Name() != "init" {
+											mutated = true
+										}
+									} else {
+										obs = true
+									}
+								case *ssa.UnOp:
+									obs = x.Op == token.MUL
+								case *ssa.FieldAddr, *ssa.IndexAddr:
+									if _, o2 := observes(in.(ssa.Value)); o2 {
+										obs = true
+									}
+								case ssa.CallInstruction:
+									name := ""
+									if f := x.Common().StaticCallee(); f != nil {
+										name = f.Name()
+									}
+									switch name {
+									case "Store", "Delete", "Put", "Clear", "Lock", "Unlock", "RLock", "RUnlock", "Do", "Wait", "Done":
+										mutated = mutated || name == "Store" || name == "Delete" || name == "Put" || name == "Clear"
+									case "Add", "Swap", "CompareAndSwap":
+										mutated = true
+										if v, ok := in.(ssa.Value); ok && v.Referrers() != nil && len(*v.Referrers()) > 0 {
+											obs = true
+										}
+									default:
+										obs = true
+									}
+								default:
+									obs = true
+								}
+								if obs && isBaselineFn(fn) && ownerListed(owners, outer(fn)) {
+									reader = in
+								}
+							}
+						}
+					}
+					// containers and sync objects are mutated through methods / map updates
+					if !mutated {
+						ts := typeString(g.Type())
+						mutated = strings.Contains(ts, "map[") || strings.Contains(ts, "sync.") || strings.Contains(ts, "atomic.")
+					}
+					n++
+					c.ob(rule, "new package-level state "+name, g.Pos(), !(mutated && reader != nil), true, func() string {
+						if reader != nil {
+							return "a package-level variable that does not exist in the reference tree, changes at run time and is read by existing code (" + fname(outer(reader.Parent())) + "): process-wide state is shared by all services, survives failed commands and is not in the state file"
+						}
+						return ""
+					}())
+				}
+			}
+			continue
+		}
+		pkg := c.server
+		nt, ok := pkg.Members[tn].(*ssa.Type)
+		if !ok {
+			continue
+		}
+		st, ok := nt.Type().Underlying().(*types.Struct)
+		if !ok {
+			continue
+		}
+		for i := 0; i < st.NumFields(); i++ {
+			f := st.Field(i)
+			if baselineFields[pkg.Pkg.Path()+"."+tn+"."+f.Name()] {
+				continue
+			}
+			n++
+			var reader ssa.Instruction
+			for _, fn := range c.modFuncs {
+				if !isBaselineFn(fn) {
+					continue
+				}
+				for _, b := range fn.Blocks {
+					for _, in := range b.Instrs {
+						switch x := in.(type) {
+						case *ssa.FieldAddr:
+							if s2 := derefStruct(x.X.Type()); s2 != nil && s2.Field(x.Field) == f {
+								if _, obs := observes(x); obs {
+									reader = in
+								}
+							}
+						case *ssa.Field:
+							if s2, _ := x.X.Type().Underlying().(*types.Struct); s2 != nil && s2.Field(x.Field) == f {
+								reader = in
+							}
+						}
+					}
+				}
+			}
+			c.ob(rule, "new state "+tn+"."+f.Name(), f.Pos(), reader == nil, true, func() string {
+				if reader != nil {
+					return "a field that does not exist in the reference tree and is read by existing code (" + fname(outer(reader.Parent())) + " at " + c.pos(reader.Pos()) + "): what that code does now depends on state none of this property's rules covers (a cache or memo must be shown coherent per service / prefix / command outcome / restart, which is what the property quantifies over)"
+				}
+				return ""
+			}())
+		}
+	}
+	c.note("new-state rule: %d fields / variables not in the reference tree examined", n)
 }
